@@ -290,6 +290,38 @@ theorem informational_forwarded (st : St α) (s : Nat) (h1 : is1xx s = true) :
   refine ⟨by simp, by simp, by simp, fun h => ?_⟩
   simp [is1xx_informational h1 h]
 
+/-- **a response the handler marked as encoded, or as `no-transform`, is left alone** (precompressed
+    file_server sidecars, upstreams that compress themselves: no double encoding). If — after the handler's
+    header edits and 1xx responses — the header map carries a Content-Encoding or `Cache-Control: no-transform`,
+    then whatever the handler does next short of editing headers again (any status, Write / Flush / ReadFrom in
+    any chunking), for every configuration: the encoder is never opened, nothing but plain bytes goes out,
+    Content-Encoding and Cache-Control stay exactly what the handler set, and the client gets the handler's bytes. -/
+theorem ineligible_response_never_encoded (cfg : Cfg α) (name : Bytes) (ic : Bool) (pre body : List (Op α))
+    (hpre : ∀ op ∈ pre, Preliminary op) (hbody : ∀ op ∈ body, op.isHeaderEdit = false)
+    (hin : ineligible (run cfg (St.init name ic) pre).hdr = true) :
+    plainOnly (runWrapped cfg name ic (pre ++ body)).log = true ∧
+    hValues (runWrapped cfg name ic (pre ++ body)).hdr kCE = hValues (run cfg (St.init name ic) pre).hdr kCE ∧
+    hValues (runWrapped cfg name ic (pre ++ body)).hdr kCC = hValues (run cfg (St.init name ic) pre).hdr kCC ∧
+    clientBody (some name) (runWrapped cfg name ic (pre ++ body)) = some (written cfg (pre ++ body)) := by
+  have hno : No101 pre := by
+    intro op hop e
+    rcases hpre op hop with ⟨k, v, rfl⟩ | ⟨k, v, rfl⟩ | ⟨k, rfl⟩ | ⟨i, rfl, _, h2⟩ <;> simp at e
+    exact h2 e
+  have hinv := inv_run pre _ hno (inv_init cfg name ic)
+  have hun := uncommitted_run cfg pre (St.init name ic) hpre ⟨rfl, rfl, rfl⟩
+  have hla : LeftAlone (hValues (run cfg (St.init name ic) pre).hdr kCE) (hValues (run cfg (St.init name ic) pre).hdr kCC)
+      (run cfg (St.init name ic) pre) :=
+    ⟨hun.2.2, hin, rfl, rfl, headerOnly_plainOnly _ (hinv.pre hun.1).2.2⟩
+  have hfin := la_rwClose cfg (la_run cfg body _ hbody hla)
+  have e : runWrapped cfg name ic (pre ++ body) = rwClose cfg (run cfg (run cfg (St.init name ic) pre) body) := by
+    unfold runWrapped run; rw [List.foldl_append]
+  rw [e]
+  refine ⟨hfin.plain, hfin.ce_eq, hfin.cc_eq, ?_⟩
+  rw [← e]
+  unfold clientBody
+  rw [e, hfin.plain, ← e]
+  simp [payloads_runWrapped]
+
 /-- **the status survives**, for every configuration: a handler that edits headers / sends 1xx, announces the
     final status `s` and then writes its body in any way without calling WriteHeader again gets exactly `s`
     delivered. (Fails for the `ReadFrom` of before 954786b: `Witness.status_old_code_fails`.) -/
@@ -698,6 +730,13 @@ example : delivered true (some vZstd) (runWrapped exCfg vZstd false exOps) = som
     delivered false (some vZstd) (runWrapped exCfg vZstd false [.hset kCT exTextHtml, .writeHeader 101, .write 600]) = some [] ∧
     (runWrapped exCfg vZstd false [.hset kCT exTextHtml, .writeHeader 101, .write 600]).sent.map (·.1) = some 101 := by
   decide
+
+-- `ineligible_response_never_encoded`: a precompressed response (Content-Encoding gzip set by file_server, big body
+-- through ReadFrom) and a `no-transform` response both meet its hypothesis; the former stays plain
+example : ineligible (run exCfg (St.init vZstd false) [.hset kCT exTextHtml, .hset kCE vGzip]).hdr = true ∧
+    ineligible (run exCfg (St.init vZstd false) [.hset kCC vNoTransform, .writeHeader 103]).hdr = true ∧
+    (runWrapped exCfg vZstd false ([.hset kCT exTextHtml, .hset kCE vGzip] ++ [.writeHeader 200, .readFrom [512, 2000]])).log
+      = [.w 2000, .w 512, .wh 200 [(kCE, [vGzip]), (kCT, [exTextHtml])]] := by decide
 
 -- `status_preserved`: its hypotheses are met by exOps' shape (pre = 4 ops, s = 200, body = 4 ops)
 example : ∀ op ∈ ([.hset kCT exTextHtml, .writeHeader 103] : List (Op Nat)), Preliminary op := by
